@@ -45,7 +45,7 @@ package ir
 //@ # ---------------------------------------------------------------- C17 ---
 //@ # nextID (closure of AssignMetadataIDs): the next number above curID that is not in used.
 //@ func (*Module).AssignMetadataIDs$1
-//@   props C17
+//@   props C17 C20
 //@   requires used != nil
 //@   assigns curID
 //@   ensures result == curID && curID > old(curID) && !used[result]
@@ -55,7 +55,7 @@ package ir
 //@ # explicit(d): definitions that carried an ID on entry keep it; the others get the smallest unused numbers in order.
 //@ macro wfMetadataIDs(m *Module) bool = forall(i, 0, len(m.MetadataDefs), m.MetadataDefs[i] != nil && mdid(m.MetadataDefs[i]) >= -1) && forall(i int, j int, 0 <= i && i < j && j < len(m.MetadataDefs) ==> ptrof(m.MetadataDefs[i]) != ptrof(m.MetadataDefs[j]))
 //@ func (*Module).AssignMetadataIDs
-//@   props C17
+//@   props C17 C20
 //@   requires m != nil
 //@   requires forall(i, 0, len(m.MetadataDefs), m.MetadataDefs[i] != nil && mdid(m.MetadataDefs[i]) >= -1)
 //@   requires forall(i int, j int, 0 <= i && i < j && j < len(m.MetadataDefs) ==> ptrof(m.MetadataDefs[i]) != ptrof(m.MetadataDefs[j]))
